@@ -346,6 +346,14 @@ static void z_exec(const plan_t *p)
             for (i = 0; i < n; i++) if (key_of(arr + i * es) == key) { exists = 1; first = i; break; }
             cmpcap = 4 * (uint64_t)(n + 16);
             g_cur_ctx = exists ? "present" : "absent";
+            if ((o->a[1] & 2) && exists && n > 0) {
+                /* the probe is itself an element of the array ("where is the first one like this one?"), not necessarily the first */
+                size_t at = (size_t)(o->a[0] >> 3) % n, guard = 0;
+                while (key_of(arr + at * es) != key && guard++ < n) at = (at + 1) % n;
+                PROBE("probe_is_an_element_of_the_array"); if (at != first) PROBE("probe_is_a_later_duplicate");
+                if (o->kind == Z_SEARCH) TRY(sres = cstl_raw_array_search(arr, n, es, arr + at * es, cmp_cb, NULL));
+                else TRY(sres = cstl_raw_array_find(arr, n, es, arr + at * es, cmp_cb, NULL));
+            } else
             if (o->kind == Z_SEARCH) TRY(sres = cstl_raw_array_search(arr, n, es, probe, cmp_cb, probe));
             else TRY(sres = cstl_raw_array_find(arr, n, es, probe, cmp_cb, probe));
             if (g_aborted) VIOL("abort", "%s aborted", z_opname(o->kind));
@@ -395,13 +403,13 @@ static void z_gen(prng_t *r, int mode, plan_t *p)
         int nf = (int)prng_below(r, 4), ns = 1 + (int)prng_below(r, 2);
         o->a[0] = huge ? prng_below(r, 2) : prng_below(r, 8); o->a[1] = huge ? 65000 + prng_below(r, 5000) : prng_next(r) >> 8; o->a[2] = prng_next(r) >> 8; o->a[3] = prng_next(r);
         if (huge) o->a[2] = 7 + 5 * prng_below(r, 500);      /* many distinct values */
-        for (j = 0; j < nf; j++) { op_t *f = plan_add(p, Z_FIND); f->a[0] = prng_next(r) >> 8; f->a[1] = prng_below(r, 2); }
+        for (j = 0; j < nf; j++) { op_t *f = plan_add(p, Z_FIND); f->a[0] = prng_next(r) >> 8; f->a[1] = prng_below(r, 4); }
         if (prng_chance(r, 1, 3)) { op_t *v = plan_add(p, Z_REVERSE); v->a[0] = prng_below(r, 2); }
         for (j = 0; j < ns; j++) {
             op_t *s = plan_add(p, Z_SORT);
             int k2, nq = 1 + (int)prng_below(r, 4);
             s->a[0] = prng_below(r, 8); s->a[1] = prng_below(r, 4);
-            for (k2 = 0; k2 < nq; k2++) { op_t *f = plan_add(p, prng_chance(r, 3, 4) ? Z_SEARCH : Z_FIND); f->a[0] = prng_next(r) >> 8; f->a[1] = prng_below(r, 2); }
+            for (k2 = 0; k2 < nq; k2++) { op_t *f = plan_add(p, prng_chance(r, 3, 4) ? Z_SEARCH : Z_FIND); f->a[0] = prng_next(r) >> 8; f->a[1] = prng_below(r, 4); }
             if (prng_chance(r, 1, 3)) { op_t *v = plan_add(p, Z_REVERSE); v->a[0] = prng_below(r, 2); }     /* the next sort sees reversed input */
         }
     }
@@ -415,7 +423,7 @@ static void z_gen(prng_t *r, int mode, plan_t *p)
     if (!huge && prng_chance(r, 1, 12)) {
         op_t *s = plan_add(p, Z_ADVSORT);
         s->a[0] = prng_chance(r, 1, 2) ? 0 : prng_below(r, 5); s->a[1] = prng_below(r, 4); s->a[2] = prng_below(r, 6);
-        if (prng_chance(r, 1, 2)) { op_t *f = plan_add(p, Z_FIND); f->a[0] = prng_next(r) >> 8; f->a[1] = prng_below(r, 2); }
+        if (prng_chance(r, 1, 2)) { op_t *f = plan_add(p, Z_FIND); f->a[0] = prng_next(r) >> 8; f->a[1] = prng_below(r, 4); }
     }
 }
 
